@@ -1,4 +1,5 @@
 import GapicModel.Model.Determinism
+import GapicModel.Pinned.Funcs
 /-
 C10 — generation is a pure, deterministic function of the request (DESIGN §7.10).
 
@@ -572,4 +573,177 @@ theorem resource_helpers_needs_distinct_types (a b : Resource) (hab : a ≠ b) (
 example : (⟨['x','/','T'], ['a']⟩ : Resource) ≠ ⟨['x','/','T'], ['b']⟩ ∧
     (⟨['x','/','T'], ['a']⟩ : Resource).type = (⟨['x','/','T'], ['b']⟩ : Resource).type := by decide
 
+/-! ## Link to the function translated from /repo's source (harness/pyfun2lean.py) -/
+
+section Translated
+
+theorem splitOn_exists (sep : Char) (s : Str) : ∃ h t, Model.Determinism.splitOn sep s = h :: t := by
+  cases s with
+  | nil => exact ⟨[], [], rfl⟩
+  | cons c cs =>
+    simp only [Model.Determinism.splitOn]
+    split
+    · exact ⟨_, _, rfl⟩
+    · split <;> exact ⟨_, _, rfl⟩
+
+theorem splitAux_eq (sep : Char) (s cur h : Str) (t : List Str)
+    (e : Model.Determinism.splitOn sep s = h :: t) :
+    PyRt.splitAux [sep] 0 cur s = (cur.reverse ++ h) :: t := by
+  induction s generalizing cur h t with
+  | nil =>
+    simp only [Model.Determinism.splitOn, cons.injEq] at e
+    simp [PyRt.splitAux, ← e.1, ← e.2]
+  | cons c cs ih =>
+    obtain ⟨h', t', e'⟩ := splitOn_exists sep cs
+    by_cases hc : c = sep
+    · subst hc
+      simp only [Model.Determinism.splitOn, if_true, cons.injEq] at e
+      have := ih [] h' t' e'
+      simp [PyRt.splitAux, List.isPrefixOf, this, ← e.1, ← e.2, e']
+    · simp only [Model.Determinism.splitOn, hc, if_false, e', cons.injEq] at e
+      have := ih (c :: cur) h' t' e'
+      have hc' : ¬ sep = c := fun e => hc e.symm
+      simp [PyRt.splitAux, List.isPrefixOf, hc', this, ← e.1, ← e.2]
+
+theorem split_eq (s : Str) : PyRt.split s ['\n'] = Model.Determinism.splitOn '\n' s := by
+  obtain ⟨h, t, e⟩ := splitOn_exists '\n' s
+  rw [PyRt.split, splitAux_eq '\n' s [] h t e, e]
+  simp
+
+theorem strip_eq (s : Str) : PyRt.strip s = strip PyRt.isWs s := rfl
+
+theorem join_eq (xs : List Str) : PyRt.join ['\n'] xs = joinNl xs := by
+  induction xs with
+  | nil => rfl
+  | cons a xs ih =>
+    cases xs with
+    | nil => rfl
+    | cons b r => simp [PyRt.join, joinNl, ih]
+
+theorem ltStr_eq (a b : Str) : PyRt.ltStr a b = !leStr b a := by
+  induction a generalizing b with
+  | nil => cases b <;> simp [PyRt.ltStr, leStr]
+  | cons x xs ih =>
+    cases b with
+    | nil => simp [PyRt.ltStr, leStr]
+    | cons y ys =>
+      simp only [PyRt.ltStr, leStr]
+      by_cases h1 : x.toNat < y.toNat
+      · have : ¬ y.toNat < x.toNat := by omega
+        simp [h1, this]
+      · by_cases h2 : y.toNat < x.toNat
+        · simp [h1, h2]
+        · simp [h1, h2, ih]
+
+theorem insertStr_perm (x : Str) (ys : List Str) : (PyRt.insertStr x ys).Perm (x :: ys) := by
+  induction ys with
+  | nil => exact Perm.refl _
+  | cons y ys ih =>
+    simp only [PyRt.insertStr]
+    split
+    · exact (ih.cons y).trans (Perm.swap x y ys)
+    · exact Perm.refl _
+
+theorem sortStr_perm (xs : List Str) : (PyRt.sortStr xs).Perm xs := by
+  induction xs with
+  | nil => exact Perm.refl _
+  | cons x xs ih => exact (insertStr_perm x _).trans (ih.cons x)
+
+theorem insertStr_pairwise (x : Str) (ys : List Str) (h : ys.Pairwise (fun a b => leStr a b = true)) :
+    (PyRt.insertStr x ys).Pairwise (fun a b => leStr a b = true) := by
+  induction ys with
+  | nil => simp [PyRt.insertStr]
+  | cons y ys ih =>
+    have hy := pairwise_cons.mp h
+    simp only [PyRt.insertStr]
+    by_cases hlt : PyRt.ltStr y x = true
+    · simp only [hlt, if_true]
+      have hyx : leStr y x = true := by
+        have := leStr_total y x
+        rw [ltStr_eq] at hlt
+        simp at hlt
+        simpa [hlt] using this
+      refine pairwise_cons.mpr ⟨?_, ih hy.2⟩
+      intro z hz
+      rcases mem_cons.mp ((insertStr_perm x ys).mem_iff.mp hz) with rfl | hz'
+      · exact hyx
+      · exact hy.1 z hz'
+    · simp only [hlt]
+      have hxy : leStr x y = true := by
+        rw [ltStr_eq] at hlt
+        simpa using hlt
+      refine pairwise_cons.mpr ⟨?_, h⟩
+      intro z hz
+      rcases mem_cons.mp hz with rfl | hz'
+      · exact hxy
+      · exact leStr_trans _ _ _ hxy (hy.1 z hz')
+
+theorem sortStr_pairwise (xs : List Str) : (PyRt.sortStr xs).Pairwise (fun a b => leStr a b = true) := by
+  induction xs with
+  | nil => simp [PyRt.sortStr]
+  | cons x xs ih => exact insertStr_pairwise x _ ih
+
+/-- the translator's insertion sort and the model's merge sort are the same function -/
+theorem sortStr_eq (xs : List Str) : PyRt.sortStr xs = sortedStr xs := by
+  apply Perm.eq_of_pairwise (le := fun a b => leStr a b = true)
+  · intro a b _ _ hab hba
+    exact leStr_antisymm a b hab hba
+  · exact sortStr_pairwise xs
+  · exact sortBy_pairwise id xs
+  · exact (sortStr_perm xs).trans (sortBy_perm id xs).symm
+
+theorem nodup_eraseDups (xs : List Str) : xs.eraseDups.Nodup := by
+  generalize hn : xs.length = n
+  induction n using Nat.strongRecOn generalizing xs with
+  | _ n ih =>
+    cases xs with
+    | nil => simp
+    | cons a as =>
+      rw [eraseDups_cons]
+      refine nodup_cons.mpr ⟨?_, ?_⟩
+      · intro hm
+        have := (mem_filter.mp (mem_eraseDups.mp hm)).2
+        simp at this
+      · have hl : (as.filter fun b => !b == a).length < n := by
+          have := List.length_filter_le (fun b => !b == a) as
+          simp at hn; omega
+        exact ih _ hl _ rfl
+
+theorem eraseDups_isSetOf (xs : List Str) : IsSetOf (PyRt.dedup xs) xs :=
+  ⟨nodup_eraseDups xs, fun _ => mem_eraseDups⟩
+
+theorem startswith_eq (text : Str) : PyRt.startswith text ['\n'] = (text.head? == some '\n') := by
+  cases text with
+  | nil => rfl
+  | cons c cs => simp [PyRt.startswith, List.isPrefixOf, Bool.beq_comm]
+
+theorem endswith_eq (text : Str) : PyRt.endswith text ['\n'] = (text.getLast? == some '\n') := by
+  simp only [PyRt.endswith, List.isSuffixOf, ← head?_reverse]
+  cases text.reverse with
+  | nil => rfl
+  | cons c cs => simp [List.isPrefixOf, Bool.beq_comm]
+
+/-- **Link to the translated source.** The hand-written `sortLines` (instantiated with CPython's
+`str.isspace` table, as the driver does) IS the function the translator reads off
+`gapic/utils/lines.py: sort_lines` — for every text and both values of `dedupe`.  The two differ in
+the sorting algorithm (merge vs. insertion sort) and in the chosen iteration order of `set(lines)`
+(`dedup` vs. `List.eraseDups`); both differences vanish because a sort by a total antisymmetric order
+does not see them (`sorted_perm_invariant`). -/
+theorem sort_lines_translated (text : Str) (dedupe : Bool) :
+    sortLines PyRt.isWs text dedupe = Pinned.Funcs.sort_lines text dedupe := by
+  have hlines : ((PyRt.split (PyRt.strip text) ['\n']).filter fun i_ => PyRt.truthy (PyRt.strip i_)).map (fun i_ => i_)
+      = linesOf PyRt.isWs text := by
+    simp [linesOf, split_eq, strip_eq, PyRt.truthy]
+  have hnl : Char.ofNat 10 = '\n' := rfl
+  cases dedupe with
+  | true =>
+    simp only [Pinned.Funcs.sort_lines, hnl, hlines, if_true, sortLines, sortLinesFrom, startswith_eq, endswith_eq,
+      join_eq, sortStr_eq]
+    rw [sorted_perm_invariant _ _ (isSetOf_perm_of_perm (eraseDups_isSetOf _) (dedup_isSetOf (linesOf PyRt.isWs text)) (Perm.refl _))]
+  | false =>
+    simp only [Pinned.Funcs.sort_lines, hnl, hlines, sortLines, sortLinesFrom, startswith_eq, endswith_eq,
+      join_eq, sortStr_eq]
+    cases (text.head? == some '\n') <;> cases (text.getLast? == some '\n') <;> simp
+
+end Translated
 end GapicModel.Props.C10
